@@ -162,7 +162,9 @@ def ovf_spec(draw):
     return {"kind": "ovf", "files": files, "disks": disks, "items": items, "ovf_prefix": op,
             "attr_prefix": draw(st.sampled_from(["ovf", "ovf", "a", op or "ovf"])), "rasd_prefix": draw(st.sampled_from(["rasd", "rasd", "r", "RASD"])),
             "redundant_ns": draw(st.booleans()), "comments": draw(st.booleans()), "sq": draw(st.booleans()),
-            "foreign_attrs": draw(st.sampled_from([None, None, None, "before", "after"]))}
+            "foreign_attrs": draw(st.sampled_from([None, None, None, "before", "after"])), "cdata": draw(st.booleans()),
+            # an envelope of the OVF 2 namespace is loaded first (whatever comes of it): this envelope's answer does not depend on it
+            "ovf2_first": draw(st.integers(0, 3)) == 0}
 
 
 @st.composite
@@ -192,7 +194,7 @@ def pvs_spec(draw):
                                                                       "仮想ディスク" * 20 + "\U0001F5B4\U0001F98A.hdd", "Жёсткий диск е\u0301.hdd"])),
                      "first": draw(st.booleans()),
                      "partitions": draw(st.sampled_from([None, None, None, ["/dev/disk0s1"], ["/dev/disk0s1", "/dev/disk0s2"]]))})
-    return {"kind": "pvs", "devices": devs, "comments": draw(st.booleans())}
+    return {"kind": "pvs", "devices": devs, "comments": draw(st.booleans()), "cdata": draw(st.booleans())}
 
 
 @st.composite
@@ -321,6 +323,11 @@ def check(spec) -> Outcome:
         out.cls(f"vmx-disks={min(len(exp), 3)}")
         return out
     text, exp = document(spec)
+    if spec.get("ovf2_first"):
+        other, err = lib(parse, kind, text.replace(bx.OVF_NS, bx.OVF_NS[:-1] + "2"))
+        if not err:
+            lib(lambda: list(other.disks()))
+        out.cls("after-an-ovf2-envelope")
     obj, err = lib(parse, kind, text, bool(spec.get("close_handle")))
     if err:
         out.fail(err.sig(kind + "-parse"), f"{kind} parser raised {err.describe()}")
